@@ -5,14 +5,13 @@ CONSTANTS
   ShortCookieRead = FALSE
   DialResetsData = TRUE
   Alpns <- AlpnsOk
-  Alphabet <- AlphaAll
-  CutRecs <- CutNone
-  MaxRecs = 4
+  Alphabet <- AlphaStall
+  CutRecs <- CutStall
+  MaxRecs = 3
   MaxDials = 1
   MaxCalls = 1
   MaxStore = 0
   CtxMode = "ignored"
-  MaxStalls = 0
+  MaxStalls = 1
   Tails = TRUE
-CONSTRAINT Decorated
-INVARIANTS EmitDecorated RunAgrees
+INVARIANTS EmitStalled RunAgrees
